@@ -46,6 +46,7 @@ CONSTANTS MaxObj,     \* objects per scenario
           BUG_AdapterRawClose,  \* AsyncAdapter.Close closes the net.Conn's descriptor number itself
           BUG_WsResetLeak,      \* websocket: a second handshake on the same stream forgets the previous net.Conn without closing it
           BUG_ForeignDeregister,\* IO.Deregister clears the entry of the stored number whoever registered there
+          BUG_CloseKeepsFd,     \* file.Close returns before closing the descriptor when the poller cannot drop the (write-only) registration
           BUG_EarlyDeregister,  \* completion handlers Deregister although the other direction is parked
           BUG_SocketNonblockLeak, \* internal.socket(): failed SetNonblock returns the fd with an error, callers drop it
           BUG_AcceptLeak        \* accept(): failed getsockname drops the accepted descriptor
@@ -54,11 +55,12 @@ VARIABLES tab,    \* descriptor table: number -> 0 free | o > 0 object o | -1 no
           reg,    \* IO.pending: number -> object whose Slot is registered there (0 none)
           objs,   \* object records
           nmade, nops, nplug,
+          iodead, \* the program has closed the IO context the objects were created on
           mon,    \* monitor
           hist,   \* generated script (not in VIEW)
           done
 
-implvars == <<tab, reg, objs, nmade, nops, nplug>>
+implvars == <<tab, reg, objs, nmade, nops, nplug, iodead>>
 vars     == <<implvars, mon, hist, done>>
 
 M == INSTANCE FdMon
@@ -198,7 +200,7 @@ B2I(b) == IF b THEN 1 ELSE 0
 Init ==
   /\ tab = [f \in Fds |-> 0] /\ reg = [f \in Fds |-> 0]
   /\ objs = [o \in Objs |-> NoObj]
-  /\ nmade = 0 /\ nops = 0 /\ nplug = 0
+  /\ nmade = 0 /\ nops = 0 /\ nplug = 0 /\ iodead = FALSE
   /\ mon = M!Mon0
   /\ hist = <<>> /\ done = FALSE
 
@@ -240,7 +242,7 @@ Make(kind, fail, arg) ==
         ELSE [NoObj EXCEPT !.kind = kind, !.st = "failed"]]
   /\ mon' = m4
   /\ hist' = Append(hist, [Cmd("Make", o, kind, fail, "", B2I(out.ok), out.held, 0, 0) EXCEPT !.arg = arg])
-  /\ UNCHANGED <<reg, nplug>>
+  /\ UNCHANGED <<reg, nplug, iodead>>
 
 \* the event kind of a websocket stream that has been handshaken again is "ws2" / "wsa2"
 EvKind(ob) == IF ob.gen > 1 THEN ob.kind \o "2" ELSE ob.kind
@@ -266,7 +268,17 @@ Rehandshake(o, fail, arg) ==
   /\ mon' = m3
   /\ hist' = Append(hist, [Cmd("Rehandshake", o, ob.kind, fail, "", B2I(out.ok), out.held,
                                IF t0 = tab THEN 0 ELSE 1, 0) EXCEPT !.arg = arg])
-  /\ UNCHANGED <<reg, nmade, nplug>>
+  /\ UNCHANGED <<reg, nmade, nplug, iodead>>
+
+\* the program closes the IO context (epoll and eventfd go away; they belong to the scenario frame, not to an
+\* object of the table) while operations are parked on objects it has not closed yet
+IoClose ==
+  /\ WithGc /\ ~iodead
+  /\ \E o \in Objs : objs[o].st = "live" /\ ~objs[o].closed /\ (objs[o].evr \/ objs[o].evw)
+  /\ iodead' = TRUE
+  /\ mon' = M!Step(mon, Ev("Harness", 0, "", "none", 1, 0, "", 0, Census(tab), Census(tab), {}, {}))
+  /\ hist' = Append(hist, Cmd("IoClose", 0, "", "none", "", 1, 0, 0, 0))
+  /\ UNCHANGED <<tab, reg, objs, nmade, nplug>>
 
 \* the harness allocates a descriptor of its own (between two Closes)
 Plug ==
@@ -276,7 +288,7 @@ Plug ==
      /\ tab' = t1
      /\ mon' = M!Step(mon, Ev("Harness", 0, "", "none", 1, 0, "", 0, Census(tab), Census(t1), Census(t1) \ Census(tab), {}))
   /\ hist' = Append(hist, Cmd("Plug", 0, "", "none", "", 1, 1, 0, 0))
-  /\ UNCHANGED <<reg, objs, nmade>>
+  /\ UNCHANGED <<reg, objs, nmade, iodead>>
 
 \* ---------------------------------------------------------------------------
 \* Close
@@ -299,6 +311,10 @@ CloseEffect(o) ==
        \* CloseNextLayer: net.Conn.Close, guarded by conn = nil
        [t |-> IF ob.nconn = "open" THEN CloseNum(tab, ob.fd) ELSE tab, r |-> reg, sv |-> 0,
         ob |-> [ob EXCEPT !.closed = TRUE, !.ncl = @ + 1, !.nconn = "closed"]]
+  ELSE IF BUG_CloseKeepsFd /\ iodead /\ ob.kind \in {"tcp", "acc", "file"} /\ ob.evw /\ ~ob.evr THEN
+       \* as found: poller.Del reports the failed removal of the write interest, file.Close returns the error
+       \* before Deregister and close(2); the object counts as closed from then on
+       [t |-> tab, r |-> reg, sv |-> 0, ob |-> [ob EXCEPT !.closed = TRUE, !.ncl = @ + 1]]
   ELSE [t |-> CloseNum(CloseNum(tab, ob.fd), ob.fd2),
         r |-> IF ob.kind \in {"io", "timer"} THEN reg ELSE DeregO(reg, ob.fd, o),
         sv |-> IF ob.kind \in {"io", "timer"} THEN 0 ELSE Survivor(reg, ob.fd, o),
@@ -315,7 +331,7 @@ DoClose(o) ==
   /\ objs' = MarkStale([objs EXCEPT ![o] = ef.ob], ef.sv)
   /\ mon' = M!Step(mon, Ev("Close", o, EvKind(ob), "none", 1, 1, "", 0, Census(tab), Census(ef.t), {}, {}))
   /\ hist' = Append(hist, Cmd("Close", o, ob.kind, "none", "", 1, 0, Cardinality(lost), 0))
-  /\ UNCHANGED <<nmade, nplug>>
+  /\ UNCHANGED <<nmade, nplug, iodead>>
 
 \* Timer.Cancel: it.Unset() (nothing armed: nil) and then state = ready, also after Close
 TimerCancel(o) ==
@@ -323,7 +339,7 @@ TimerCancel(o) ==
   /\ ob.st = "live" /\ ob.kind = "timer" /\ ob.closed /\ ob.refs
   /\ objs' = [objs EXCEPT ![o].closed = IF BUG_TimerRevive THEN FALSE ELSE TRUE]
   /\ hist' = Append(hist, Cmd("Cancel", o, ob.kind, "none", "", 1, 0, 0, 0))
-  /\ UNCHANGED <<tab, reg, nmade, nplug, mon>>
+  /\ UNCHANGED <<tab, reg, nmade, nplug, iodead, mon>>
 
 \* the user closes the net.Conn an adapter wraps (before or after the adapter's Close)
 NetClose(o) ==
@@ -336,7 +352,7 @@ NetClose(o) ==
   /\ objs' = [objs EXCEPT ![o].nconn = "closed", ![o].ncl = @ + 1]
   /\ mon' = M!Step(mon, Ev("Close", o, ob.kind, "none", 1, 0, "", 0, Census(tab), Census(t1), {}, {}))
   /\ hist' = Append(hist, Cmd("NetClose", o, ob.kind, "none", "", 1, 0, Cardinality(lost), 0))
-  /\ UNCHANGED <<reg, nmade, nplug>>
+  /\ UNCHANGED <<reg, nmade, nplug, iodead>>
 
 \* websocket: stream.NextLayer().Close(), i.e. the Close of the AsyncAdapter the
 \* stream built around its net.Conn (before or after CloseNextLayer)
@@ -355,7 +371,7 @@ LayerClose(o) ==
                         IF ob.lclosed THEN 0 ELSE Survivor(reg, ob.fd, o))
   /\ mon' = M!Step(mon, Ev("Close", o, ob.kind, "none", 1, 0, "", 0, Census(tab), Census(t1), {}, {}))
   /\ hist' = Append(hist, Cmd("LayerClose", o, ob.kind, "none", "", 1, 0, Cardinality(lost), 0))
-  /\ UNCHANGED <<nmade, nplug>>
+  /\ UNCHANGED <<nmade, nplug, iodead>>
 
 \* ---------------------------------------------------------------------------
 \* operations in flight, references, collection
@@ -378,7 +394,7 @@ Park(o, dir, via) ==
   /\ reg' = IF ob.kind = "timer" THEN reg ELSE [reg EXCEPT ![ob.fd] = o]
   /\ mon' = M!Step(mon, Ev("Park", o, ob.kind, "none", 1, 0, dir, 0, Census(tab), Census(tab), {}, {}))
   /\ hist' = Append(hist, [Cmd("Park", o, ob.kind, "none", dir, 1, 0, 0, 0) EXCEPT !.arg = via])
-  /\ UNCHANGED <<tab, nmade, nplug>>
+  /\ UNCHANGED <<tab, nmade, nplug, iodead>>
 
 \* reachable: the program holds it, or the registry entry of its number points
 \* at its Slot, or (timer) it is in pendingTimers
@@ -403,7 +419,7 @@ Fire(o, dir) ==
   /\ mon' = M!Step(mon, Ev(IF ob.refs THEN "Done" ELSE "Deliver", o, ob.kind, "none", 1, 0, dir, 0,
                            Census(tab), Census(tab), {}, {}))
   /\ hist' = Append(hist, Cmd("Fire", o, ob.kind, "none", dir, 1, 0, 0, 0))
-  /\ UNCHANGED <<tab, nmade, nplug>>
+  /\ UNCHANGED <<tab, nmade, nplug, iodead>>
 
 \* the program drops every reference, the collector runs three times; the
 \* sentinel captured by the pending callback tells whether the owner went
@@ -418,22 +434,24 @@ Drop(o, dir) ==
   /\ objs' = [objs EXCEPT ![o].refs = FALSE, ![o].coll = coll]
   /\ mon' = M!Step(mon, Ev("Gc", o, ob.kind, "none", 1, 0, dir, B2I(coll), Census(tab), Census(tab), {}, {}))
   /\ hist' = Append(hist, Cmd("Drop", o, ob.kind, "none", dir, 1, 0, 0, B2I(coll)))
-  /\ UNCHANGED <<tab, reg, nmade, nplug>>
+  /\ UNCHANGED <<tab, reg, nmade, nplug, iodead>>
 
 \* ---------------------------------------------------------------------------
 Step ==
   /\ nops < MaxOps /\ nops' = nops + 1
   /\ UNCHANGED done
-  /\ \/ \E k \in Kinds : \E f \in ({"none"} \cup (IF WithFail THEN FailPoints(k) ELSE {})) :
+  /\ \/ /\ ~iodead
+        /\ \E k \in Kinds : \E f \in ({"none"} \cup (IF WithFail THEN FailPoints(k) ELSE {})) :
             \E a \in Args(f) : Make(k, f, a)
      \/ Plug
-     \/ /\ WithRehs
+     \/ IoClose
+     \/ /\ WithRehs /\ ~iodead
         /\ \E o \in {x \in Objs : objs[x].kind \in {"ws", "wsa"}} :
              \* (no exhaustion here: reset() frees a number first, so RLIMIT_NOFILE cannot make the dial fail)
              \E f \in ({"none"} \cup (IF WithFail THEN FailPoints(objs[o].kind) \ EmFails(objs[o].kind) ELSE {})) :
                \E a \in Args(f) : Rehandshake(o, f, a)
      \/ \E o \in Objs : DoClose(o) \/ TimerCancel(o) \/ NetClose(o) \/ LayerClose(o)
-     \/ \E o \in Objs : \E d \in {"r", "w"} : Park(o, d, 0) \/ Park(o, d, 1) \/ Fire(o, d) \/ Drop(o, d)
+     \/ \E o \in Objs : \E d \in {"r", "w"} : (~iodead /\ (Park(o, d, 0) \/ Park(o, d, 1) \/ Fire(o, d))) \/ Drop(o, d)
 
 \* a state in which the monitor has rejected is terminal; the rejected script
 \* is emitted like any other and judged on the real code
